@@ -33,6 +33,7 @@ type Engine struct {
 	repoDir        string
 	envKinds       map[string]int
 	nonNilCache    map[*ssa.Global]bool
+	verifDir       string
 }
 
 func loadEngine(repo string) (*Engine, error) {
